@@ -4,7 +4,7 @@ Require Extraction.
 Require Import ExtrOcamlBasic.
 From Coq Require Import ZArith NArith List FMapPositive.
 From CB Require Import Common.IntN Wasm.Syntax Wasm.Opcodes Wasm.Sem Wasm.Compile Wasm.Machine
-     Wasm.ArtifactCodec Wasm.ArtifactNormalForm Wasm.ArtifactView Wasm.Resume Contract.V1Resume.
+     Wasm.ArtifactCodec Wasm.ArtifactNormalForm Wasm.ArtifactView Wasm.Resume Contract.V1Resume Contract.V1Classify.
 Extraction Language OCaml.
 Extraction "c13_model.ml"
   plain_of_byte mem_of_byte mk_const mk_val structure_body flatten_body
@@ -12,6 +12,6 @@ Extraction "c13_model.ml"
   compile_module build_artifact mrun
   as_u32 as_u64
   output_artifact parse_artifact parse_artifact_strict wf_artifactb view_okb s_artifact_of to_machine
-  engine_scenario
+  engine_scenario classify_scenario classify_init
   init_state finish m_run_direct m_drive_count lift_host
   Z.of_N Z.to_N N.of_nat Nat.add.
